@@ -131,19 +131,19 @@ func (d *DAGMutex[T]) unregisterMutexes(ids ...T) (mutexes []*StarvingMutex) {
 }
 
 func (d *DAGMutex[T]) unregisterMutex(id T) (mutex *StarvingMutex) {
-	if count, _ := d.consumerCounter.Get(id); count == 1 {
-		d.consumerCounter.Delete(id)
-		d.mutexes.Delete(id)
-
-		return nil
-	}
-
 	mutex, mutexExists := d.mutexes.Get(id)
 	if !mutexExists {
 		panic(ierrors.Errorf("called Unlock or RUnlock too often for entity with %v", id))
 	}
-	count, _ := d.consumerCounter.Get(id)
-	d.consumerCounter.Set(id, count-1)
+
+	// the mutex is always returned and unlocked by the caller (even if this is the last consumer), so that unlocking
+	// an entity that is not held (or held in a different mode) panics instead of silently dropping the registration.
+	if count, _ := d.consumerCounter.Get(id); count == 1 {
+		d.consumerCounter.Delete(id)
+		d.mutexes.Delete(id)
+	} else {
+		d.consumerCounter.Set(id, count-1)
+	}
 
 	return mutex
 }
